@@ -107,7 +107,7 @@ TakeChk(c, K, tol, a, s, tooknew) ==
 (* st.pl = legs of the previous step, st.psel[p] = legs committed for      *)
 (* position p (<<>> while undecided).                                      *)
 (***************************************************************************)
-SameGroupAsPrev(c, a, s) == s > 1 /\ a.group[s] # 0 /\ a.group[s - 1] = a.group[s] /\ Active(c, a, s - 1)
+SameGroupAsPrev(c, a, s) == s > 1 /\ a.group[s] # 0 /\ a.group[s - 1] = a.group[s] /\ Active(c, a, s - 1) /\ Active(c, a, s)
 
 GroupChk(c, tol, a, s, legs, st) ==
   IF ~SameGroupAsPrev(c, a, s) THEN ""
